@@ -468,6 +468,8 @@ def loadJson (K : Consts) (tsArg : TypeSystem) (tsIdx ci : Nat) (lenient mergeTs
       heap ← Heap.setSlot heap d.addr d.slot v
   let mut c : Cas := { s.cas with nextXid := s.maxId + 1, nextSofaNum := s.maxNum + 1 }
   -- views
+  -- a structure that is a member of several views keeps the sofa the document names for it
+  let mut memberSofas : List (Int × Option Val) := []
   for jv in doc.views do
     let h : Handle := { view := jv.name, lenient := lenient }
     if (Cas.getViewRec c jv.name).isNone then
@@ -476,9 +478,18 @@ def loadJson (K : Consts) (tsArg : TypeSystem) (tsIdx ci : Nat) (lenient mergeTs
     for m in jv.members do
       match lookup s.fss m with
       | some (.ref a) =>
+        let own : Option Val ← match memberSofas.find? (fun q => q.1 == m) with
+          | some q => pure q.2
+          | none => do
+            let v := Traverse.slot heap a "sofa"
+            memberSofas := memberSofas ++ [(m, v)]
+            pure v
         let (c', heap') ← Cas.add ts ci c heap h a true
         c := c'
         heap := heap'
+        match own with
+        | some v => if v != .none then heap ← Heap.setSlot heap a "sofa" v
+        | none => pure ()
       | some _ => throw Err.attributeError
       | none => throw Err.keyError
   pure { ts := ts, cas := c, heap := heap }
